@@ -32,7 +32,7 @@ TRUSTED = [
 def gen_inputs(ctx):
     g = symgen.Gen(ctx.rng)
     if ctx.quick:
-        der = L.derived_workspaces(g, ctx.rng, 170, 5, 5, 1)
+        der = L.derived_workspaces(g, ctx.rng, 300, 5, 5, 1)
     else:
         der = L.derived_workspaces(g, ctx.rng, 900, 8, 8, 2)
     wss = []
@@ -130,6 +130,12 @@ def run(ctx):
                        "at": [p, o], "what": what, "all": [list(x) for x in e["c06"][:10]], "seed": ctx.seed, "kind": kind,
                        "violating_workspaces_in_this_run": len(bad_inputs)})
         found = True
+    # extraction cross-check: the same side conditions and answers evaluated by vm_compute inside Coq
+    xc = [(e["ws"], e["real"], e["model"]) for e in res
+          if e["model"] and e["model"].get("run") == "ok" and not e["diffs"] and 10 <= len(e["real"]["oplog"] or []) <= 150][:6]
+    ok_xc, msg_xc = L.coq_crosscheck(xc, "C06")
+    if not ok_xc:
+        ties.append((res[0], "extraction cross-check: Coq's vm_compute disagrees with the extracted model: " + msg_xc[-300:]))
     if ties and not found:
         e, why = min(ties, key=lambda t: len(json.dumps(t[0]["ws"]["files"])))
         fails.append({"kind": "correspondence", "file": why})
@@ -154,6 +160,7 @@ def run(ctx):
         "skipped_analysis_failed": skipped,
         "traces_validated_against_impl": sum(1 for e in res + cres if e["model"] is not None and not e["diffs"] and "model_crash" not in e["model"]),
         "correspondence_disagreements": len(ties),
+        "extraction_crosschecked_in_coq": len(xc),
         "violating_workspaces": len(bad_inputs),
         "compared": "interval map of every file (order, ranges, symbol ids), name/define_loc/reference_locs of every symbol in them, "
                     "goto_definition and references at every offset, index diagnostic ranges, top-level outline names",
